@@ -27,6 +27,16 @@ public:
     bool start();
     void stop();
 
+#ifdef EPHEMERALNET_VERIF
+#define EPHEMERALNET_VERIF_RELAY_HOOKS 1
+    // Verification hooks (compiled only with -DEPHEMERALNET_VERIF): let a test driver hand the
+    // server an already-connected descriptor (e.g. one end of a socketpair) exactly as
+    // accept_new_clients() would, and read the sizes of the session and registration tables.
+    bool adopt_client(int fd);
+    std::size_t session_count() const { return sessions_.size(); }
+    std::size_t registration_count() const { return registered_.size(); }
+#endif
+
 private:
     enum class SessionState {
         AwaitingCommand,
